@@ -36,8 +36,8 @@ RANDOM_TOTAL = {'quick': 24000, 'thorough': 900000}
 
 RULE = ('Values: (1) ENUMERATED - every concatenation of <= 5 (quick) / <= 7 (thorough) tokens from '
         "['a', ':', '#', ' ', TAB, CR, LF, '-', '.', 'B: x'], each assigned to the middle field of a 3-field "
-        'paragraph and (rotating with the value) to a sole/first/last/new field of paragraphs of 1..4 fields, some '
-        'with multi-line neighbours; (2) RANDOM - seeded longer values built from lines (printable ASCII and a few '
+        'paragraph and (rotating with the value; for length 7 on every third value) to a sole/first/last/new field of '
+        'paragraphs of 1..4 fields, some with multi-line neighbours; (2) RANDOM - seeded longer values built from lines (printable ASCII and a few '
         "non-ASCII letters, 'Key: value' look-alikes, '#' comments, PGP armour lines, whitespace-only lines) joined by "
         'LF / CR LF / CR with mostly-indented continuations, assigned through item assignment, update(), '
         'setdefault(), Deb822(dict) and re-checked after copy(), target field first/middle/last/new in paragraphs '
@@ -75,7 +75,12 @@ FLOORS = {'quick': {'nontrivial': 45000,
                     'counters': {'enum-len:5': 100000, 'enum-len:4': 10000, 'accepted-multiline': 30000,
                                  'copy-checked': 1300, 'route:update': 1700, 'route:ctor': 1600,
                                  'route:setdefault': 600}},
-          'thorough': {'nontrivial': 2, 'monitors': {}, 'counters': {}}}
+          'thorough': {'nontrivial': 2800000,     # recording cap is 400000 per shard x 14
+                       'monitors': {'M.reread': 11800000, 'M.must-reject': 3000000, 'M.unchanged': 5200000,
+                                    'K.setitem-raise': 5200000},
+                       'counters': {'enum-len:7': 10000000, 'enum-len:6': 1000000, 'enum-len:5': 100000,
+                                    'accepted-multiline': 1300000, 'copy-checked': 49000, 'route:update': 64000,
+                                    'route:ctor': 64000, 'route:setdefault': 22000}}}
 
 WS_FALSE = {'whitespace-separates-paragraphs': False}
 
